@@ -437,4 +437,29 @@ example : exLoaded.map (fun l => (l.prop? "pos").map (·.vals)) = some (some [[1
   decide +kernel
 example : exLoaded.map (fun l => (l.prop? "atype").map (·.vals)) = some (some [[1], [2]]) := by decide +kernel
 
+/-! ## through every route -/
+
+/-- **load_dump_roundtrip_poscar_any_route**: the POSCAR round trip through every route: the text the writer emits,
+    dumped to a file named in any of the ways a file can be named (whatever the file held before) and loaded from that
+    file named in any of the ways a source can be named, is the closed-form system of `load_dump_roundtrip_poscar`. -/
+theorem load_dump_roundtrip_poscar_any_route {f : Fmt} (hf : Readable f) (s : Sys) (header : List String)
+    (symbols : Option (List String)) (coordstyle : String) (scale : ℚ) (text : List Char)
+    (hw : writePoscar s header symbols coordstyle scale f = .ok text)
+    (hh : ∀ w ∈ header, ∀ c ∈ strTok w, c ≠ '\n')
+    (hsy : ∀ l, symbols = some l → (∀ w ∈ l, CleanTok (strTok w)) ∧ (l.map strTok).mapM parseInt? = none)
+    (hcs : CleanTok (strTok coordstyle))
+    (hlen : (poscarNums s (isCartStyle coordstyle) scale).coords.length =
+      (poscarNums s (isCartStyle coordstyle) scale).counts.foldr (· + ·) 0)
+    (hne : (poscarNums s (isCartStyle coordstyle) scale).coords ≠ [])
+    (symArg : Option (List (Option String)))
+    (w : World) (k : Sink) (p : String) (hk : k.writesFile p) (src : Source) (hs : src.namesFile p) :
+    ∃ w', dumpTo w k text = .ok (w', none) ∧
+      loadVia (fun t => loadPoscar t symArg) w' src =
+        .ok (poscarLoaded f scale (poscarNums s (isCartStyle coordstyle) scale).lattice
+          (poscarNums s (isCartStyle coordstyle) scale).counts (poscarNums s (isCartStyle coordstyle) scale).coords
+          (isCartStyle coordstyle)
+          (symArg.getD (writtenSymbols symbols (poscarNums s (isCartStyle coordstyle) scale).counts))) := by
+  obtain ⟨w', h1, h2⟩ := load_dump_roundtrip_any_route (fun t => loadPoscar t symArg) w k p text hk src hs
+  exact ⟨w', h1, h2.trans (load_dump_roundtrip_poscar hf s header symbols coordstyle scale text hw hh hsy hcs hlen hne symArg)⟩
+
 end Atomman.C08
